@@ -53,7 +53,7 @@ def parent_init(tier, seed):
 
 def plan(tier, seed):
     specs = [{'k': 'h'} for _ in range(1500 if tier == 'quick' else 150000)]
-    specs += [{'k': 'hs'} for _ in range(40 if tier == 'quick' else 1000)]
+    specs += [{'k': 'hs'} for _ in range(64 if tier == 'quick' else 1500)]
     specs += [{'k': 'hscli'} for _ in range(12 if tier == 'quick' else 200)]
     return specs
 
@@ -61,8 +61,8 @@ def plan(tier, seed):
 # --------------------------------------------------------------------------
 # pool of related programs
 
-L = progs.CODE_LABELS[:4]
-K = progs.CONSTS
+L = ['la', 'lb', 'fade', 'cafe']         # two of them spelled with hex letters only
+K = ['KA', 'KB', 'ADC0', 'BEEF']
 
 
 def pool_programs(r):
@@ -101,6 +101,9 @@ def pool_programs(r):
             pool.append({'kind': kind, 'target': text, 'is_path': False})
     # an include tree (with include_bytes) whose leaf defines symbols other programs use
     tree = progs.gen_tree(r, max_depth=2, allow_bytes=True)
+    if r.random() < 0.5:
+        from . import c14
+        c14.add_twin(r, tree)       # the same name adjacent and in an -i directory: whichever wins must not depend on the hash seed
     for p, t in tree['files'].items():
         files[p] = t
     bins = dict(tree.get('bins') or {})
@@ -150,6 +153,12 @@ def make_history(r, nsteps=None):
             if dicts == 'seeded':
                 op['seed_consts'] = {r.choice(K): r.randint(0, 2000)} if r.random() < 0.7 else {'SEEDED': 5}
             ops.append(op)
+            if pool[i]['kind'].startswith('fail-') and pool[i]['is_path'] and r.random() < 0.5:
+                # the edit-compile cycle: the call fails, the user repairs the line (and touches two immediates), assembles again
+                ops.append({'op': 'write', 'path': pool[i]['target'], 'edit': 'fix-fault', 'arg': r.randint(0, 10 ** 6)})
+                again = dict(op)
+                again['inject'] = None
+                ops.append(again)
         elif c < 0.9:
             incl = sorted(set(i['target'] for i in tree['includes']))
             if incl and r.random() < 0.2:
@@ -223,6 +232,13 @@ def apply_edit(text, kind, arg):
         i = arg % len(lines)
         if not lines[i].lower().startswith('include') and not lines[i].strip().endswith(':') and '=' not in lines[i]:
             del lines[i]
+        return '\n'.join(lines)
+    if kind == 'fix-fault':
+        # pool shape of failing programs: label / nop / <faulty line> / align 4 / addi t0, t0, 1
+        if len(lines) >= 5:
+            lines[1] = '    addi x0, x0, %d' % (1 + arg % 5)
+            lines[2] = '    addi x0, x0, 0'
+            lines[4] = '    addi t0, t0, %d' % (33 + arg % 100)
         return '\n'.join(lines)
     if kind == 'replace':
         return text.replace('nop', 'addi x0, x0, %d' % (arg % 7), 1)
